@@ -159,6 +159,8 @@ func configsFor(part string, thorough bool) []*xcfg {
 	case "c18":
 		return []*xcfg{
 			{Name: "2v+w-bfs", Voters: []uint64{1, 2}, Witnesses: []uint64{3}, Fifo: true, MaxTerm: 3, MaxIndex: 5, Timeouts: 2, Proposals: 2, Drops: 1, MaxDepth: pick(14, 0)},
+			{Name: "1v+w-bfs", Voters: []uint64{1}, Witnesses: []uint64{2}, Fifo: true, MaxTerm: 3, MaxIndex: 5, Timeouts: 2, Proposals: 2, Reads: 1, Drops: 1, Crashes: 1, MaxDepth: pick(16, 0)},
+			{Name: "1v+2w-bfs", Voters: []uint64{1}, Witnesses: []uint64{2, 3}, Fifo: true, MaxTerm: 3, MaxIndex: 4, Timeouts: 2, Proposals: 1, Reads: 1, Drops: 1, MaxDepth: pick(12, 0)},
 			{Name: "2v+nv-bfs", Voters: []uint64{1, 2}, NonVotings: []uint64{3}, Fifo: true, MaxTerm: 3, MaxIndex: 5, Timeouts: 2, Proposals: 2, Reads: 1, Drops: 1, MaxDepth: pick(12, 0)},
 			{Name: "3v+nv-promote-dev", Voters: v3, NonVotings: []uint64{4}, Fifo: true, LazyApply: true, MaxDev: pick(2, 3), MaxTerm: 6, MaxIndex: 10, ConfChanges: pick(0, 1), Timeouts: pick(1, 2), Drops: pick(1, 2), Proposals: pick(0, 1), Crashes: pick(0, 1),
 				CCMenu: ccMenu, Script: []string{"T1", "H1", "P1", "C1:0", "H1", "H1", "P4", "H1"}},
